@@ -35,6 +35,71 @@ def _simple_arg(e):
     return False
 
 
+PURE_FUNCS = {"len", "set", "frozenset", "list", "tuple", "sorted", "dict", "zip", "enumerate", "abs", "min", "max", "float", "int", "str", "bool",
+              "isinstance", "hasattr", "getattr", "all", "any", "sum", "reversed", "range"}
+PURE_METHODS = {"keys", "values", "items", "get", "copy"}
+
+
+def _pure_arg(e):
+    """an argument expression that may be evaluated several times without changing the meaning for the analyses"""
+    for x in ast.walk(e):
+        if isinstance(x, (ast.Await, ast.Yield, ast.YieldFrom, ast.NamedExpr, ast.Lambda)):
+            return False
+        if isinstance(x, ast.Call):
+            f = x.func
+            if isinstance(f, ast.Name) and f.id in PURE_FUNCS:
+                continue
+            if isinstance(f, ast.Attribute) and f.attr in PURE_METHODS:
+                continue
+            return False
+    return True
+
+
+NEG = {ast.Eq: ast.NotEq, ast.NotEq: ast.Eq, ast.Is: ast.IsNot, ast.IsNot: ast.Is, ast.In: ast.NotIn, ast.NotIn: ast.In}
+
+
+def negate(e):
+    if isinstance(e, ast.UnaryOp) and isinstance(e.op, ast.Not):
+        return e.operand
+    if isinstance(e, ast.Compare) and len(e.ops) == 1 and type(e.ops[0]) in NEG:
+        return ast.Compare(left=e.left, ops=[NEG[type(e.ops[0])]()], comparators=e.comparators)
+    if isinstance(e, ast.Constant) and isinstance(e.value, bool):
+        return ast.Constant(value=not e.value)
+    return ast.UnaryOp(op=ast.Not(), operand=e)
+
+
+def _and(a, b):
+    vals = (a.values if isinstance(a, ast.BoolOp) and isinstance(a.op, ast.And) else [a]) + \
+           (b.values if isinstance(b, ast.BoolOp) and isinstance(b.op, ast.And) else [b])
+    return ast.BoolOp(op=ast.And(), values=vals)
+
+
+def _or(a, b):
+    vals = (a.values if isinstance(a, ast.BoolOp) and isinstance(a.op, ast.Or) else [a]) + \
+           (b.values if isinstance(b, ast.BoolOp) and isinstance(b.op, ast.Or) else [b])
+    return ast.BoolOp(op=ast.Or(), values=vals)
+
+
+def boolify(e):
+    """a conditional expression used only for its truth value, written with and/or/not"""
+    if isinstance(e, ast.IfExp):
+        c, a, b = boolify(e.test), boolify(e.body), boolify(e.orelse)
+        if isinstance(a, ast.Constant) and a.value is True:
+            return _or(c, b)
+        if isinstance(a, ast.Constant) and a.value is False:
+            return _and(negate(c), b)
+        if isinstance(b, ast.Constant) and b.value is True:
+            return _or(negate(c), a)
+        if isinstance(b, ast.Constant) and b.value is False:
+            return _and(c, a)
+        return _or(_and(c, a), _and(negate(c), b))
+    if isinstance(e, ast.UnaryOp) and isinstance(e.op, ast.Not):
+        return negate(boolify(e.operand))
+    if isinstance(e, ast.BoolOp):
+        return ast.BoolOp(op=e.op, values=[boolify(v) for v in e.values])
+    return e
+
+
 def always_exits(stmts):
     if not stmts:
         return False
@@ -118,6 +183,15 @@ def as_expression(stmts):
     rest = stmts[1:]
     if isinstance(st, ast.Return):
         return st.value if st.value is not None else ast.Constant(value=None)
+    if isinstance(st, ast.For) and not st.orelse and len(rest) == 1 and isinstance(rest[0], ast.Return) and isinstance(rest[0].value, ast.Constant) \
+            and rest[0].value.value is True and st.body and all(
+                isinstance(b, ast.If) and not b.orelse and len(b.body) == 1 and isinstance(b.body[0], ast.Return) and isinstance(b.body[0].value, ast.Constant)
+                and b.body[0].value.value is False for b in st.body):
+        # for x in xs: if c1: return False ; if c2: return False ... ; return True      ==      all(not c1 and not c2 for x in xs)
+        conds = [negate(b.test) for b in st.body]
+        elt = conds[0] if len(conds) == 1 else ast.BoolOp(op=ast.And(), values=conds)
+        gen = ast.GeneratorExp(elt=elt, generators=[ast.comprehension(target=st.target, iter=st.iter, ifs=[], is_async=0)])
+        return ast.Call(func=ast.Name(id="all", ctx=ast.Load()), args=[gen], keywords=[])
     if isinstance(st, ast.If):
         body_rest = [] if always_exits(st.body) else rest
         else_rest = [] if (st.orelse and always_exits(st.orelse)) else rest
@@ -270,7 +344,7 @@ class Inliner:
         mapping = {}
         prelude = []
         for p, a in binding.items():
-            if p in stored or not _simple_arg(a):
+            if p in stored or not (_simple_arg(a) or _pure_arg(a)):
                 fresh = tag + p
                 prelude.append(ast.Assign(targets=[ast.Name(id=fresh, ctx=ast.Store())], value=copy.deepcopy(a)))
                 rename[p] = fresh
@@ -565,9 +639,15 @@ def sink_alias_selection(tree):
 def _path(e):
     """('self', 'bins') for self.bins ; None if e is not a plain attribute path rooted at a name"""
     parts = []
-    while isinstance(e, ast.Attribute):
-        parts.append(e.attr)
-        e = e.value
+    while True:
+        if isinstance(e, ast.Attribute):
+            parts.append(e.attr)
+            e = e.value
+        elif isinstance(e, ast.Subscript) and isinstance(e.slice, ast.Constant) and isinstance(e.slice.value, (str, int)):
+            parts.append(("[]", e.slice.value))      # x["key"] / x[0]
+            e = e.value
+        else:
+            break
     if isinstance(e, ast.Name) and parts:
         return (e.id,) + tuple(reversed(parts))
     return None
@@ -615,8 +695,16 @@ def eliminate_attribute_aliases(tree):
                     p = _path(vv)
                     if p is None or tt.id in params or stores.get(tt.id) != 1:
                         continue
-                    if p[0] not in params or stores.get(p[0], 0) != 0:
+                    root_ok = (p[0] in params and stores.get(p[0], 0) == 0) or (p[0] not in params and stores.get(p[0], 0) == 1
+                                                                                 and p[0] not in cands)
+                    if not root_ok:
                         continue
+                    if p[0] not in params:
+                        # a local root (e.g. a loop variable): its one binding must come before the alias in the text
+                        first = min((y.lineno for y in ast.walk(fn) if isinstance(y, ast.Name) and y.id == p[0]
+                                     and isinstance(y.ctx, ast.Store)), default=None)
+                        if first is None or first > x.lineno:
+                            continue
                     if any(p[:k] in rebound for k in range(2, len(p) + 1)):
                         continue
                     cands[tt.id] = (vv, x, i)
@@ -662,12 +750,22 @@ def eliminate_attribute_aliases(tree):
     ast.fix_missing_locations(tree)
 
 
+def boolify_tests(tree):
+    for n in ast.walk(tree):
+        if isinstance(n, (ast.If, ast.While)) and any(isinstance(x, ast.IfExp) for x in ast.walk(n.test)):
+            new = boolify(n.test)
+            ast.copy_location(new, n.test)
+            n.test = new
+    ast.fix_missing_locations(tree)
+
+
 def apply(tree, helpers=True):
     if helpers:
         try:
             Inliner(tree).run()
         except RecursionError:
             pass
+        boolify_tests(tree)
     for fn in ast.walk(tree):
         if isinstance(fn, (ast.FunctionDef, ast.AsyncFunctionDef)):
             unfold_return_guards(fn)
